@@ -122,7 +122,7 @@ func canonGroups(js []byte) []byte {
 func compareReordered(line string, a, b adaptRes, over20 bool, desc string, o *core.Outcome) {
 	switch {
 	case b.panicked:
-		o.Failures = append(o.Failures, core.Failure{Case: line, Class: "adapter-panic", What: "adapter panicked on the reordered input: " + clip(b.panicMsg, 300) + "; " + desc})
+		o.Failures = append(o.Failures, core.Failure{Case: line, Class: panicClass(b.panicMsg), What: "adapter panicked on the reordered input: " + clip(b.panicMsg, 300) + "; " + desc})
 	case b.timedOut:
 		o.Failures = append(o.Failures, core.Failure{Case: line, Class: "adapter-hang", What: "adapter hangs on the reordered input; " + desc})
 	case a.verdict() != b.verdict():
